@@ -595,3 +595,100 @@ func ruleNUMAUTH(c *Ctx) []Obligation {
 	obs = append(obs, o)
 	return obs
 }
+
+func init() {
+	register(&Rule{
+		Name:  "NUM-ORDER",
+		Doc:   "the numbering routines visit the lists of a module / function in the order the printer emits them (globals, aliases, ifuncs, functions; parameters, then blocks with their instructions and terminator), so the numbers appear in increasing order in the output, as LLVM requires of unnamed values",
+		Floor: 2,
+		Run:   ruleNUMORDER,
+	})
+}
+
+// rangeOrder lists, in source order, the receiver fields a function ranges over (top-level and nested).
+func rangeOrder(info *types.Info, fd *ast.FuncDecl, fields map[string]bool) []string {
+	var recv types.Object
+	if fd.Recv != nil && len(fd.Recv.List) == 1 && len(fd.Recv.List[0].Names) == 1 {
+		recv = info.Defs[fd.Recv.List[0].Names[0]]
+	}
+	var out []string
+	seen := map[string]bool{}
+	ast.Inspect(fd.Body, func(n ast.Node) bool {
+		rs, ok := n.(*ast.RangeStmt)
+		if !ok {
+			return true
+		}
+		se, ok := unparen(rs.X).(*ast.SelectorExpr)
+		if !ok {
+			return true
+		}
+		id, ok := unparen(se.X).(*ast.Ident)
+		if !ok || info.ObjectOf(id) != recv || !fields[se.Sel.Name] || seen[se.Sel.Name] {
+			return true
+		}
+		seen[se.Sel.Name] = true
+		out = append(out, se.Sel.Name)
+		return true
+	})
+	return out
+}
+
+func ruleNUMORDER(c *Ctx) []Obligation {
+	var obs []Obligation
+	info := c.pkg(pkgIR).TypesInfo
+	// module level
+	fields := map[string]bool{"Globals": true, "Aliases": true, "IFuncs": true, "Funcs": true}
+	num := c.funcDecl(c.lookupFunc(pkgIR, "Module.AssignGlobalIDs"))
+	wt := c.funcDecl(c.lookupFunc(pkgIR, "Module.WriteTo"))
+	o := Obligation{Key: "ir.(*Module).AssignGlobalIDs order = WriteTo order", Verdict: OK}
+	if num == nil || wt == nil {
+		o.Verdict, o.Detail = UNDECIDED, "AssignGlobalIDs / WriteTo not found"
+	} else {
+		a, b := rangeOrder(info, num, fields), rangeOrder(info, wt, fields)
+		o.Pos = c.pos(num.Pos())
+		if strings.Join(a, ",") != strings.Join(b, ",") {
+			o.Verdict = VIOL
+			o.Detail = fmt.Sprintf("unnamed globals are numbered in the order %v but printed in the order %v: the printed IDs are not increasing, which LLVM rejects, and a re-parse binds @N to different entities", a, b)
+		} else {
+			o.Detail = strings.Join(a, ", ")
+		}
+	}
+	obs = append(obs, o)
+	// function level: numbering nests Params, Blocks{Insts, Term}; the body printer ranges Blocks and each block prints Insts then Term
+	fnum := c.funcDecl(c.lookupFunc(pkgIR, "Func.AssignIDs"))
+	blockLL := c.funcDecl(c.lookupFunc(pkgIR, "Block.LLString"))
+	o2 := Obligation{Key: "ir.(*Func).AssignIDs order = print order", Verdict: OK}
+	if fnum == nil || blockLL == nil {
+		o2.Verdict, o2.Detail = UNDECIDED, "AssignIDs / Block.LLString not found"
+	} else {
+		o2.Pos = c.pos(fnum.Pos())
+		a := rangeOrder(info, fnum, map[string]bool{"Params": true, "Blocks": true})
+		// within a block: Insts before Term, in both
+		instBeforeTerm := func(fd *ast.FuncDecl) bool {
+			var pi, pt token.Pos
+			ast.Inspect(fd.Body, func(n ast.Node) bool {
+				if se, ok := n.(*ast.SelectorExpr); ok {
+					if se.Sel.Name == "Insts" && pi == 0 {
+						pi = se.Pos()
+					}
+					if se.Sel.Name == "Term" && pt == 0 {
+						// the nil check of Term in the printer is not output
+						pt = se.Pos()
+					}
+				}
+				return true
+			})
+			return pi != 0 && pt != 0 && pi < pt
+		}
+		switch {
+		case strings.Join(a, ",") != "Params,Blocks":
+			o2.Verdict, o2.Detail = VIOL, fmt.Sprintf("locals are numbered in the order %v; LLVM numbers parameters first, then blocks in layout order", a)
+		case !instBeforeTerm(fnum) || !instBeforeTerm(blockLL):
+			o2.Verdict, o2.Detail = VIOL, "within a block, instructions must be numbered and printed before the terminator"
+		default:
+			o2.Detail = "Params, Blocks{Insts, Term} in numbering and printing"
+		}
+	}
+	obs = append(obs, o2)
+	return obs
+}
